@@ -158,6 +158,9 @@ func genC12(t *rapid.T) CaseRT {
 	zone := rapid.SampledFrom([]string{"", "America/New_York", "fixed:+05:45"}).Draw(t, "zone")
 	o := rgen.DefaultGenOpts(zone)
 	o.MaxSelectors = 8
+	if rapid.IntRange(0, 24).Draw(t, "sizeClass") == 0 {
+		o.MaxSelectors = rapid.SampledFrom([]int{17, 33, 70}).Draw(t, "manySelectors")
+	}
 	m := &rgen.Msg{Timestamp: rgen.P(uint64(1700000000))}
 	// a few trips with entities of their own, referenced by some alerts
 	var pool []rgen.TripDesc
